@@ -92,6 +92,8 @@ def gen_history(seed, i, valid, tier):
            "ctx": "crate::Ctx" if rng.coin(150) else None,
            # the whole history inside one process (state kept by Compile between runs of a process), or a process per run
            "one_process": rng.coin(250)}
+    # the destination is a symbolic link to a file kept elsewhere (generated sources in another directory); process-per-run only
+    cfg["dest_symlink"] = (not cfg["one_process"]) and rng.coin(120)
     if mode == "file":
         slots = ["g0.ebnf"]
     else:
@@ -181,7 +183,8 @@ def snapshot(path):
         return None
     if not os.path.isfile(path):
         return ("notfile", 0)
-    return (open(path, "rb").read(), st.st_mtime_ns)
+    # a destination that is a symbolic link to a regular file: content and modification time of what it points to
+    return (open(path, "rb").read(), os.stat(path).st_mtime_ns)
 
 
 def remove_any(path):
@@ -259,6 +262,11 @@ def execute_history(cfg, d, valid, scratch, stats=None):
     events = []
     nrun = 0
     dests = [dest_of(cfg, d, s) for s in range(len(slots))]
+    if cfg.get("dest_symlink") and not one_process:
+        os.makedirs(os.path.join(d, "real_out"), exist_ok=True)
+        for s, dp in enumerate(dests):
+            os.makedirs(os.path.dirname(dp), exist_ok=True)
+            os.symlink(os.path.join(d, "real_out", "s%d.rs" % s), dp)
     ignored = [os.path.join(d, "src", x) for x in IGNORED_PRODUCTS] if cfg["mode"] == "dir" else []
     for opi, op in enumerate(cfg["ops"]):
         if op[0] == "edit":
@@ -588,6 +596,7 @@ def run(tier, seed, replay_path=None):
             "reference_compiles": scratch.n,
             "histories_with_successful_run": with_ok,
             "one_process_histories": sum(1 for cfg, _ in results if cfg.get("one_process")),
+            "symlinked_destination_histories": sum(1 for cfg, _ in results if cfg.get("dest_symlink")),
             "operation_counts": op_counts,
             "violation_classes_seen": classes,
             "faults_fired": {"EIO_on_grammar_open": stats["eio_fired"],
